@@ -6,7 +6,15 @@ HASH64 = lambda rng: "%064x" % rng.getrandbits(256)
 
 
 def item_of(tokens, i, rng, src):
-    """one assembly item from plain tokens starting at i; returns (item, next i)"""
+    """one assembly item from plain tokens starting at i; returns (item, next i).  Every kind of item (pushes of every value, zero
+    included, pseudo-pushes, tags) may carry modifierDepth"""
+    it, j = _item_of(tokens, i, rng, src)
+    if "modifierDepth" not in it and rng.random() < 0.08:
+        it["modifierDepth"] = rng.randrange(1, 3)
+    return it, j
+
+
+def _item_of(tokens, i, rng, src):
     t = tokens[i]
     b = rng.choice([0, 0, -1]) if rng.random() < 0.15 else rng.randrange(0, 5000)
     base = {"begin": b, "end": b + rng.choice([0, 1, rng.randrange(1, 300)]) if b >= 0 else rng.choice([-1, 0]),
@@ -112,6 +120,12 @@ def handcrafted():
                 it("ADD"), it("PUSH [tag]", "1"), it("JUMP", None, jumpType="[in]")]
         docs_.append(("hand%d.json_solc" % k, {"contracts": {"a.sol:A": {"asm": {".code": code, ".data": {"0": {".auxdata": "a1", ".code": list(code)}}}},
                                                               "a.sol:I": {}}, "version": "0.8.15+commit.e14f2714"}))
+    # every kind of item inside a modifier body: each one carries modifierDepth (and the jump its jumpType)
+    md = [it("tag", "1", modifierDepth=1), it("JUMPDEST", modifierDepth=1), it("PUSH", "0", modifierDepth=1), it("PUSH", "5", modifierDepth=2),
+          it("ADD", modifierDepth=1)] + [it(n, v, modifierDepth=1) for n, v in kinds] + [it("POP", modifierDepth=1) for _ in kinds] + \
+         [it("PUSH", "0", modifierDepth=2), it("MSTORE", modifierDepth=1), it("PUSH [tag]", "1", modifierDepth=1), it("JUMP", None, jumpType="[out]", modifierDepth=1)]
+    docs_.append(("handmod.json_solc", {"contracts": {"m.sol:M": {"asm": {".code": md, ".data": {"0": {".auxdata": "a2", ".code": list(md)}}}}},
+                                        "version": "0.8.15+commit.e14f2714"}))
     return docs_
 
 
